@@ -609,18 +609,20 @@ theorem expValK_plain (js : Nat → JFields) : ∀ (fuel : Nat) (c : ECtx) (v : 
         funext fun c => funext fun v => expValK_plain js fuel c v
       simp only [expValK, expVal, Bool.false_eq_true, if_false, ih]
 
-/-- FINDING (current code): Map and Set objects are exported without consulting the identity cache
-    (mapObject.export / setObject.export start with `make` + `ctx.put`), so a Map reached twice within one export comes
-    out as two different Go slices: `var m = new Map(); [m, m]`. -/
-theorem mapset_export_loses_sharing_witness :
+/-- Regression record of the mechanism before 29d16ec: Map and Set objects were exported without consulting the identity
+    cache (mapObject.export / setObject.export started with `make` + `ctx.put`), so a Map reached twice within one
+    export came out as two different Go slices: `var m = new Map(); [m, m]`.  Since the fix Map / Set objects are
+    ordinary nodes of `expVal` and `export_preserves_sharing_and_cycles` covers them. -/
+theorem mapset_export_loses_sharing_prefix_witness :
     let js : Nat → JFields := fun id => if id = 0 then [(0, .ref 1), (1, .ref 1)] else []
     (expValK js (fun id => id == 1) 5 ECtx.empty (.ref 0)).1.out =
       [(1, []), (2, []), (0, [(0, .addr 1), (1, .addr 2)])] := by
   decide
 
-/-- FINDING (current code): a Map that contains itself (`m.set('self', m)`) makes the export recurse without end —
-    whatever the fuel, the model runs out of it (in Go: a fatal, unrecoverable stack overflow of the host). -/
-theorem cyclic_map_export_never_terminates_witness (fuel : Nat) (c : ECtx) :
+/-- Regression record of the mechanism before 29d16ec: a Map that contains itself (`m.set('self', m)`) made the export
+    recurse without end — whatever the fuel, the old model runs out of it (in Go: a fatal, unrecoverable stack overflow
+    of the host). -/
+theorem cyclic_map_export_never_terminates_prefix_witness (fuel : Nat) (c : ECtx) :
     (expValK (fun _ => [(0, .ref 0)]) (fun _ => true) fuel c (.ref 0)).1.ok = false := by
   induction fuel generalizing c with
   | zero => simp [expValK]
